@@ -41,8 +41,10 @@ SIGS = [
     [("x", "PK", 0, "arr"), ("T0", "VK", 0, None)],
     [("x", "PK", 0, "arr"), ("ret0", "VP", 0, None), ("default1", "KO", 0, "arr")],
     [("x", "PO", 0, None), ("y", "PO", 0, None), ("z", "PK", 0, "arr"), ("w", "KO", 0, None)],
+    [("x", "PO", 0, "arr"), ("kw", "VK", 0, None)],
+    [("self", "PO", 0, None), ("x", "PO", 1, "arr"), ("k", "KO", 0, "arr"), ("kwargs", "VK", 0, None)],
 ]
-CALLABLES = ["def", "method", "classmethod", "staticmethod", "property", "lambda", "async"]
+CALLABLES = ["def", "method", "classmethod", "staticmethod", "property", "lambda", "async", "def-str"]
 
 
 def instances(tier, seed):
@@ -104,13 +106,13 @@ def _record(loc):
     return REC["ret"]
 
 
-def make_source(sig, name, ret, is_async=False, is_lambda=False):
+def make_source(sig, name, ret, is_async=False, is_lambda=False, stringify=False):
     parts = []
     seen_po = any(p[1] == "PO" for p in sig)
     last_po = max([i for i, p in enumerate(sig) if p[1] == "PO"], default=-1)
     star_done = any(p[1] == "VP" for p in sig)
     for i, (pn, kind, dflt, ann) in enumerate(sig):
-        a = {"arr": ": A", "obj": ": object", None: ""}[ann]
+        a = {"arr": ": 'A'" if stringify else ": A", "obj": ": object", None: ""}[ann]
         if is_lambda:
             a = ""
         d = f" = D_{pn}" if dflt else ""
@@ -124,7 +126,7 @@ def make_source(sig, name, ret, is_async=False, is_lambda=False):
     args = ", ".join(parts)
     if is_lambda:
         return f"{name} = lambda {args}: _record(locals())\n"
-    r = " -> A" if ret else ""
+    r = (" -> 'A'" if stringify else " -> A") if ret else ""
     return f"{'async ' if is_async else ''}def {name}({args}){r}:\n    'doc of {name}'\n    return _record(locals())\n"
 
 
@@ -150,7 +152,7 @@ def call_forms(sig, vals, extra_kw):
         forms.append(("duplicate", [vals[p[0]] for p in pos], dict({p[0]: vals[p[0]] for p in ko}, **{pk[0][0]: 5})))
     if has_vk:
         for k in extra_kw:
-            if k not in [p[0] for p in sig]:
+            if k not in [p[0] for p in sig if p[1] != "PO"]:
                 forms.append((f"extra-{k}", [vals[p[0]] for p in pos], dict({p[0]: vals[p[0]] for p in ko}, **{k: 7})))
     if has_vp:
         forms.append(("varargs", [vals[p[0]] for p in pos] + [vals["_extra"], vals["_extra2"]], {p[0]: vals[p[0]] for p in ko}))
@@ -244,12 +246,13 @@ def scenario(inst, V):
     for p in sig:
         if p[2]:
             g[f"D_{p[0]}"] = V.arr([V.int(f"d_{p[0]}", 0)]) if p[3] == "arr" else object()
-    src = make_source(sig, name, inst["ret"], is_async=(ck == "async"), is_lambda=(ck == "lambda"))
+    src = make_source(sig, name, inst["ret"], is_async=(ck == "async"), is_lambda=(ck == "lambda"),
+                      stringify=(ck == "def-str"))
     exec(src, g)
     plain = g[name]
     tc = fnlib.typechecker(inst["tc"])
     try:
-        if ck in ("def", "async", "lambda"):
+        if ck in ("def", "async", "lambda", "def-str"):
             dec = jt.jaxtyped(typechecker=tc)(plain)
             call_plain, call_dec = plain, dec
         else:
@@ -315,7 +318,7 @@ def scenario(inst, V):
         forms = [("get", [], {})]
     else:
         fsig = sig[1:] if ck in ("method", "classmethod") else sig
-        forms = call_forms(fsig, vals, ["ret0", "T0", "default0", "ret1"])
+        forms = call_forms(fsig, vals, ["ret0", "T0", "default0", "ret1"] + [p[0] for p in fsig if p[1] == "PO"])
     consistent_all = None
     obs = []
     for label, args, kwargs in forms:
